@@ -135,11 +135,12 @@ def check(pid: str, tier: str, seed: int):
         from maltoolbox.model import Model
         from maltoolbox.translators.updater import load_model_from_version_0_0_39
         from maltoolbox.translators.securicad import load_model_from_scad_archive
-        lgen = LG.LangGen(rng, dup_assoc_names=0.35)
+        lgen = LG.LangGen(rng, dup_assoc_names=0.35, reuse_fields=0.4)
         sources = []
         n = 60 if tier == 'quick' else 700
-        for i in range(n):
-            L = lgen.gen()
+        special = LG.parallel_field_langs() * 3
+        for i in range(n + len(special)):
+            L = lgen.gen() if i < n else special[i - n]
             sigs = [(a['name'], a['leftAsset'], a['rightAsset']) for a in L['associations']]
             if len(set(sigs)) != len(sigs):
                 continue            # same-signature duplicate associations: their classes collapse (C06 known finding)
@@ -147,7 +148,7 @@ def check(pid: str, tier: str, seed: int):
                 lg, lcf = MG.make_lang(impl, L)
             except Exception:
                 continue
-            m = MG.gen_model(impl, rng, L, lg, lcf, n_assets=(1, 6), explicit_ids=0.35)
+            m = MG.gen_model(impl, rng, L, lg, lcf, n_assets=(1, 6) if i < n else (6, 9), explicit_ids=0.35, link_density=0.6 if i < n else 1.0)
             PIO.add_model_attackers(impl, rng, m, lg)
             sources.append((f'gen{i}', L, lg, lcf, m))
         td = os.path.join(C.REPO, 'tests', 'testdata')
